@@ -517,6 +517,7 @@ func checkRefusedNoIO(p *Prog, r *Report, ru *Rule, a *connectAnchors) {
 			uses := 0
 			var visit func(v ssa.Value)
 			var visitCell func(addr ssa.Value)
+			var visitHolder func(al *ssa.Alloc, fld int) bool
 			/* A function value which works on the stream (a method value,
 			a literal which captured it): making it is not I/O, calling it
 			is; it may be handed to the proxy closure and nowhere else. */
@@ -594,6 +595,52 @@ func checkRefusedNoIO(p *Prog, r *Report, ru *Rule, a *connectAnchors) {
 					}
 				}
 			}
+			/* A local struct with the stream in field fld: its fields may be
+			read (the stream's own field is followed), and the whole may
+			become the receiver of a method value, which is then a function
+			working on the stream. */
+			visitHolder = func(al *ssa.Alloc, fld int) bool {
+				for _, ref := range *al.Referrers() {
+					switch y := ref.(type) {
+					case *ssa.DebugRef:
+					case *ssa.FieldAddr:
+						for _, r2 := range *y.Referrers() {
+							switch z := r2.(type) {
+							case *ssa.DebugRef:
+							case *ssa.Store:
+								if z.Addr != ssa.Value(y) {
+									return false
+								}
+							case *ssa.UnOp:
+								if y.Field == fld {
+									visit(z)
+								}
+							default:
+								return false
+							}
+						}
+					case *ssa.UnOp:
+						for _, r2 := range *y.Referrers() {
+							switch z := r2.(type) {
+							case *ssa.DebugRef:
+							case *ssa.MakeClosure:
+								if !isProxyArg(z, a.Fn, proxyIdx) {
+									return false
+								}
+							case *ssa.Field:
+								if z.Field == fld {
+									visit(z)
+								}
+							default:
+								return false
+							}
+						}
+					default:
+						return false
+					}
+				}
+				return true
+			}
 			visit = func(v ssa.Value) {
 				for _, ref := range *v.Referrers() {
 					uses++
@@ -604,6 +651,14 @@ func checkRefusedNoIO(p *Prog, r *Report, ru *Rule, a *connectAnchors) {
 							if _, isAlloc := x.Addr.(*ssa.Alloc); isAlloc {
 								visitCell(x.Addr) /* Spilled for capture. */
 								continue
+							}
+							/* Put into a local struct which is the receiver
+							of a method value (inputProxier{b, w}.proxy):
+							that function value works on the stream. */
+							if fa, isFA := x.Addr.(*ssa.FieldAddr); isFA {
+								if al, isAlloc := fa.X.(*ssa.Alloc); isAlloc && visitHolder(al, fa.Field) {
+									continue
+								}
 							}
 						}
 						ok = false
